@@ -8,6 +8,7 @@ Everything here is plain Python with exact `Fraction` arithmetic and does not im
 * `clocks`            acceptable tick -> seconds functions (piecewise integration of the tempo map)
 * `match_records`     small exact matcher of expected records (with tick options) against observed
 """
+import functools
 import math
 from fractions import Fraction as F
 
@@ -34,6 +35,7 @@ def tick_exact(t, ppq, mpq):
     return F(t) * 10**6 * ppq / mpq
 
 
+@functools.lru_cache(maxsize=8192)
 def tick_options(t, ppq, mpq):
     x = tick_exact(t, ppq, mpq)
     lo = math.floor(x)
